@@ -1825,7 +1825,7 @@ SOURCE_TIES = [
      "needs": ["Pickle.PersistFacts", "Pickle.PersistShow", "Pickle.SrcPrimsFacts", "Pickle.BytesDeltaProofs"],
      "sources": ["deepdiff/serialization.py", "deepdiff/delta.py"],
      "fragment": "the DUMPING / persisting side: serialization.pickle_dump (body, defaults, co_varnames; persistent_id through the tie "
-                 "`unpickler`), the literal JSON_CONVERTOR, Delta.__init__ (defaults deserializer=pickle_load / serializer=pickle_dump, the "
+                 "`unpickler`), the literal JSON_CONVERTOR and json_convertor_default (mapping + closure), Delta.__init__ (defaults deserializer=pickle_load / serializer=pickle_dump, the "
                  "_deserializer choice, the if/elif chain that selects where self.diff comes from), Delta.dump / dumps / to_dict"}]
 
 PERSIST_HDR = ("From DD Require Import Base.PyStr Base.Value Pickle.Vm Pickle.Codec Pickle.Bytes Pickle.PickleShow Pickle.PicklerHook "
@@ -1867,7 +1867,7 @@ def persist_source_case(ctx, a):
     k, p, f, dd, fd, fr = a
     kw, seen, opened = {}, [], []
     if k == "DeepDiff":
-        kw["diff"] = DeepDiff({"m": 0}, {"m": "deepdiff"})
+        kw["diff"] = DeepDiff({"m": "a"}, {"m": "deepdiff"})
     elif k == "Mapping":
         kw["diff"] = _marker("mapping")
     elif k == "strings":
@@ -2032,11 +2032,12 @@ def persist_choice_cases(ctx):
         cases.append(("sx_dump_mode (delta_dump_mode %s)" % _coq_strs(names), obs, case))
     sig = inspect.signature(Delta.__init__).parameters
     psig = inspect.signature(S.pickle_dump).parameters
-    cases.append(("SL [SA DEFAULT_DESERIALIZER; SA DEFAULT_SERIALIZER; SZ PICKLE_DUMP_PROTOCOL; sx_strs PICKLE_DUMP_VARNAMES; sx_strs PICKLE_LOAD_VARNAMES; "
-                  "sx_dump_mode delta_dumps_mode_obs]",
+    # of the co_varnames only what Delta looks for (the names of locals are free)
+    cases.append(("SL [SA DEFAULT_DESERIALIZER; SA DEFAULT_SERIALIZER; SZ PICKLE_DUMP_PROTOCOL; sx_bool (str_in \"file_obj\" PICKLE_DUMP_VARNAMES); "
+                  "sx_bool (str_in \"safe_to_import\" PICKLE_LOAD_VARNAMES); sx_bool (str_in \"safe_to_import\" PICKLE_DUMP_VARNAMES)]",
                   [getattr(sig["deserializer"].default, "__name__", "?"), getattr(sig["serializer"].default, "__name__", "?"),
-                   psig["protocol"].default, list(S.pickle_dump.__code__.co_varnames), list(S.pickle_load.__code__.co_varnames),
-                   ["serializer-keyword", "file_obj"]],
+                   psig["protocol"].default, "file_obj" in S.pickle_dump.__code__.co_varnames, "safe_to_import" in S.pickle_load.__code__.co_varnames,
+                   "safe_to_import" in S.pickle_dump.__code__.co_varnames],
                   {"persist": "signatures"}))
     return cases
 
@@ -2112,8 +2113,60 @@ def persist_dump_case(ctx, pi, fi):
             [[kind, kept, third], exp_load], case)
 
 
+
+PERSIST_PYCL = ["PcSet", "PcFrozenset", "PcSetOrdered", "PcType", "PcBytes", "PcListReverseIterator", "PcOther"]
+PERSIST_MAPPINGS = [("none", None, "[]"), ("frozenset: list", "frozenset", '[("frozenset", JcFunc "list")]'),
+                    ("set: sorted", "set", '[("set", JcFunc "sorted")]')]
+
+
+def _pycl_samples():
+    Opcode, SetOrdered = _helper()
+    return {"PcSet": {1, 2}, "PcFrozenset": frozenset({1, 2}), "PcSetOrdered": SetOrdered([1, 2]), "PcType": int, "PcBytes": b"ab",
+            "PcListReverseIterator": reversed([2, 1]), "PcOther": object()}
+
+
+def persist_json_cases(ctx, only=None):
+    """json_convertor_default(default_mapping)(obj) for a sample object of every class the payload universe can hand to json's
+    default= hook: which converter is applied (by name; a lambda by its effect).  Correspondence: PersistModel.convertor over
+    PersistModel.JSON_CONVERTOR_TABLE.  Oracle: a set / SetOrdered / class / bytes value is written by json_dumps (no TypeError)."""
+    from deepdiff.serialization import json_convertor_default, json_dumps, JSON_CONVERTOR
+    cases = []
+    for mname, mkey, mcoq in PERSIST_MAPPINGS:
+        dm = None if mkey is None else {frozenset: list} if mkey == "frozenset" else {set: sorted}
+        conv = json_convertor_default(default_mapping=dm)
+        table = dict(JSON_CONVERTOR)
+        table.update(dm or {})
+        for cname in PERSIST_PYCL:
+            if only is not None and (mname, cname) not in only:
+                continue
+            obj = _pycl_samples()[cname]
+            case = {"persist": "json-convertor", "default_mapping": mname, "class": cname}
+            used = "-"
+            for k_, v_ in table.items():
+                if isinstance(obj, k_):
+                    used = "<lambda>" if getattr(v_, "__name__", "") == "<lambda>" else getattr(v_, "__name__", "?")
+                    break
+            try:
+                r = conv(obj)
+                effect = ("list of the members" if isinstance(r, list) and sorted(r) == [1, 2] else "the class name" if r == "int"
+                          else "the text" if r == "ab" else "other converter")
+            except TypeError:
+                effect = "TypeError"
+            except Exception as e:  # noqa
+                effect = "raises " + type(e).__name__
+            if mkey is None and cname in ("PcSet", "PcSetOrdered", "PcType", "PcBytes"):
+                try:
+                    json_dumps({"k": obj})
+                except Exception as e:  # noqa
+                    ctx.fail(dict(case, path="json", stage="dumps", error=type(e).__name__),
+                             "json_dumps raises %s on a %s value" % (type(e).__name__, cname[2:]))
+            ctx.seen(("persist-json", mname, cname))
+            ctx.count("persist:json_convertor_default " + effect)
+            cases.append(("sx_conv_obs (convertor (convertor_mapping %s) %s)" % (mcoq, cname), [effect, used], case))
+    return cases
+
 def persist_stream(ctx, only=None):
-    """only: {"source": [argument tuples], "dump": [(payload index, file index)], "choice": bool} - the inputs a broken source tie
+    """only: {"source": [argument tuples], "dump": [(payload index, file index)], "choice": bool, "json": True | [(mapping, class)]} - the inputs a broken source tie
     points at; None: everything"""
     import logging
     logging.disable(logging.CRITICAL)
@@ -2122,13 +2175,14 @@ def persist_stream(ctx, only=None):
         cases.append(persist_source_case(ctx, a))
     if only is None or only.get("choice"):
         cases += persist_choice_cases(ctx)
+    if only is None or only.get("json"):
+        cases += persist_json_cases(ctx, None if only is None or only.get("json") is True else only["json"])
     pairs = [(pi, fi) for pi in range(len(persist_payloads())) for fi in range(len(PERSIST_FILES))] if only is None else only.get("dump", [])
     for pi, fi in pairs:
         c = persist_dump_case(ctx, pi, fi)
         if c is not None:
             cases.append(c)
-    hdr = PERSIST_HDR + "\nDefinition delta_dumps_mode_obs : dump_mode := delta_dump_mode PICKLE_DUMP_VARNAMES."
-    ctx.coq_cases("c14_persist" if only is None else "c14_persist_tie", hdr, cases, shard=120,
+    ctx.coq_cases("c14_persist" if only is None else "c14_persist_tie", PERSIST_HDR, cases, shard=120,
                   label="persisting side, statement level: Delta's source selection, _deserializer choice, Delta.dump, pickle_dump as a call"
                         + ("" if only is None else " (inputs the broken source tie points at)"))
     return len(cases)
@@ -2159,6 +2213,8 @@ def _persist_tie_eval(ctx):
          "Definition CHOICES : list (bool * list string) := flat_map (fun b => map (fun l => (b, l)) NAMELISTS) [true; false].",
          "Definition VALUES : list pv := [%s]." % "; ".join(values),
          "Definition so (o : option pystr) : sx := match o with Some s => SL [sx_str s] | None => SL [] end.",
+         "Definition MAPPINGS : list table := [%s]." % "; ".join(m[2] for m in PERSIST_MAPPINGS),
+         "Definition JCASES : list (table * pycl) := flat_map (fun m => map (fun c => (m, c)) ALL_PYCL) MAPPINGS.",
          'Eval vm_compute in ("BEGIN" ++ nl ++ show_sx (SL ['
          "idx_diff (fun a => sx_source (g_delta_source a)) (fun a => sx_source (delta_source a)) ALL_ARGS; "
          "idx_diff (fun q => sx_choice (g_deserializer_choice (fst q) (snd q))) (fun q => sx_choice (deserializer_choice (fst q) (snd q))) CHOICES; "
@@ -2166,6 +2222,7 @@ def _persist_tie_eval(ctx):
          "idx_diff (fun q => sx_dump_res (g_pickle_dump (fst (fst q)) (snd (fst q)) (snd q))) "
          "(fun q => sx_dump_res (pickle_dump_call (fst (fst q)) (snd (fst q)) (snd q))) DUMPS; "
          "idx_diff (fun v => so (hook_of g_persistent_id v)) (fun v => so (persistent_id v)) VALUES; "
+         "idx_diff (fun q => sx_conv (g_convertor (g_convertor_mapping (fst q)) (snd q))) (fun q => sx_conv (convertor (convertor_mapping (fst q)) (snd q))) JCASES; "
          "idx_diff (fun x => fst x) (fun x => snd x) [(SZ g_pickle_dump_protocol_default, SZ PICKLE_DUMP_PROTOCOL); "
          "(sx_wfile g_pickle_dump_file_obj_default, sx_wfile WNone); (SA g_Delta_default_deserializer, SA DEFAULT_DESERIALIZER); "
          "(SA g_Delta_default_serializer, SA DEFAULT_SERIALIZER); "
@@ -2184,9 +2241,9 @@ def _persist_tie_eval(ctx):
         return None, out[-1500:]
     groups = _re.findall(r"\(([-0-9 \n]*)\)", m.group(1))
     nums = [[int(x) for x in g.split()] for g in groups]
-    if len(nums) != 6:
+    if len(nums) != 7:
         return None, "unexpected shape: " + m.group(1)[:300]
-    keys = ["delta_source", "deserializer_choice", "Delta_dump_mode", "pickle_dump", "persistent_id", "defaults_and_signatures"]
+    keys = ["delta_source", "deserializer_choice", "Delta_dump_mode", "pickle_dump", "persistent_id", "json_convertor", "defaults_and_signatures"]
     return {"totals": {k_: n[0] for k_, n in zip(keys, nums)}, "idx": {k_: n[1:] for k_, n in zip(keys, nums)}, "dumps": dumps}, None
 
 
@@ -2207,7 +2264,7 @@ def on_source_tie_break(ctx, name, rec):
     diff, err = _persist_tie_eval(ctx)
     out["compared"] = {"argument combinations of Delta.__init__": 160, "callables x name lists": 18, "name lists": 9,
                        "payloads x file objects x protocols": len(persist_payloads()) * len(PERSIST_FILES) * 3, "values shown to persistent_id":
-                       len(persist_payloads()) + 6, "defaults / signature facts": 9}
+                       len(persist_payloads()) + 6, "default_mapping x classes handed to json's default hook": len(PERSIST_MAPPINGS) * len(PERSIST_PYCL), "defaults / signature facts": 9}
     if diff is None:
         out["error"] = "the differencing file did not evaluate: " + (err or "")
         return out
@@ -2216,12 +2273,15 @@ def on_source_tie_break(ctx, name, rec):
     only = {"source": [args[i] for i in diff["idx"]["delta_source"][:12]],
             "choice": bool(diff["totals"]["deserializer_choice"] or diff["totals"]["Delta_dump_mode"] or diff["totals"]["defaults_and_signatures"]),
             "dump": sorted(set((diff["dumps"][i][0], diff["dumps"][i][1]) for i in diff["idx"]["pickle_dump"]))[:12]}
+    if diff["totals"]["json_convertor"]:
+        jc = [(m[0], c) for m in PERSIST_MAPPINGS for c in PERSIST_PYCL]
+        only["json"] = [jc[i] for i in diff["idx"]["json_convertor"]]
     if diff["totals"]["persistent_id"] and not only["dump"]:
         only["dump"] = [(pi, fi) for pi in range(len(persist_payloads())) for fi in (0, 2)]
     out["first_differences"] = {"delta_source arguments (diff kind, delta_path, delta_file, delta_diff, flat_dict_list, flat_rows_list)": only["source"][:6],
                                 "pickle_dump (payload index, file object)": [[pi, PERSIST_FILES[fi][0]] for pi, fi in only["dump"][:6]]}
     b0, f0 = len(ctx.breaks), len(ctx.failures)
-    if only["source"] or only["choice"] or only["dump"]:
+    if only["source"] or only["choice"] or only["dump"] or only.get("json"):
         out["judged_on_the_implementation"] = persist_stream(ctx, only)
     out["located_on_the_implementation"] = len(ctx.failures) > f0 or len(ctx.breaks) > b0
     return out
@@ -2336,6 +2396,8 @@ def replay(ctx, data):
         elif case["persist"] == "pickle_dump":
             fi = [i for i, f_ in enumerate(PERSIST_FILES) if f_[0] == case.get("file")][0]
             persist_stream(ctx, {"dump": [(case["payload_index"], fi)]})
+        elif case["persist"] == "json-convertor":
+            persist_stream(ctx, {"json": [(case["default_mapping"], case["class"])]})
         else:
             persist_stream(ctx, {"choice": True})
         for f_ in ctx.failures[:3]:
